@@ -60,7 +60,25 @@ def wrap_rules(facts, rep):
         good = bool(calls_matching(f, r"^read::make_reader$"))
         ok &= rep.check(good, rule, "%s->make_reader" % f.path.split("::")[-1], where(f, f.span), "decoder stack built by make_reader",
                         "%s no longer builds its reader through make_reader" % f.path)
-    rep.floor(rule, 10)
+    # who may build the undecoded variant: only the raw accessors -- a `Raw` reader anywhere else hands out entry data that no
+    # checksum wrapper ever sees (e.g. a "stored and unencrypted needs no decoder" shortcut in the lazy constructor)
+    allowed = re.compile(r"::get_raw_reader$|::by_index_raw($|::\{closure)")
+    builders = set()
+    for f in facts.fns:
+        if f.path.startswith("read::") or f.path.startswith("<read::") or "::read::" in f.path:
+            for bi, si, s, flds in aggregates(f, r"^read::ZipFileReader$"):
+                if s["rv"]["variant"] == "Raw":
+                    builders.add(f.path)
+    stray = sorted(b for b in builders if not allowed.search(b))
+    ok &= rep.check(bool(builders) and not stray, rule, "who-builds:Raw", where(gr, gr.span), "ZipFileReader::Raw is built only by get_raw_reader / by_index_raw",
+                    "ZipFileReader::Raw (no checksum wrapper) is also built in %s" % stray if builders else "no function builds the Raw reader any more (anchor lost)")
+    # ... and the lazy constructor stores nothing but make_reader's result
+    exg = Ex(gr)
+    asg = [norm(exg.rvalue(s_["rv"], (bi_, si_))) for bi_, si_, s_ in gr.stmts() if s_["k"] == "assign" and [p_.get("n") for p_ in s_["place"]["p"] if p_["k"] == "field"] == ["reader"]]
+    good = bool(asg) and all(a[0] == "call" and a[1].endswith("read::make_reader") for a in asg)
+    ok &= rep.check(good, rule, "get_reader:=make_reader", where(gr, gr.span), "get_reader stores make_reader(..) and nothing else",
+                    "get_reader assigns %s to self.reader" % [show(a)[:60] for a in asg])
+    rep.floor(rule, 12)
     return ok
 
 
@@ -173,7 +191,9 @@ def table_rules(facts, rep):
                                 "path (%s) returns %s with %d hash updates" % (desc, o[0], len(upd)))
         # every completing path must have consulted the three atoms unless short-circuited by a *true* earlier atom
         if res == 0 and n0 == 0:
-            consulted_ok = (empty == 1) or (empty == 0 and match == 1) or (empty == 0 and match == 0 and ae2 in (0, 1))
+            # (in whatever order the three are evaluated: one of them saying "no error" ends the evaluation, all three saying
+            # "error" is the must-fail row)
+            consulted_ok = (empty == 1) or (match == 1) or (ae2 == 1) or (empty == 0 and match == 0 and ae2 == 0)
             if not consulted_ok:
                 ok = False
                 rep.violation(rule, key + ":atoms", where(f, f.span),
